@@ -296,8 +296,14 @@ TEXTS = ["", "A", "n", "AC", "NC", "nN", "ACG", "ANG", "NCn", "NnN"]
 TEXT_ROWS = [(t, len(t), t.lower().count("n")) for t in TEXTS]
 assert sorted(set(r[1:] for r in TEXT_ROWS)) == sorted((l, k) for l in range(4) for k in range(l + 1))
 
-# Read names: nothing / passes the CASAVA filter / fails it / ':Y:' only in places that are not the is_filtered field
-NAME_ROWS = [("r", False), ("r 1:N:0:ACGT", False), ("r 1:Y:0:ACGT", True), ("r:Y: 2:N:18:ACGT", False), ("r 2:N:0:A:Y:", False)]
+# Read names (name, failed the CASAVA filter).  Guide, --discard-casava: CASAVA 1.8 adds an is_filtered header field to each
+# read; reads that have a Y there are discarded, reads whose header cannot be recognised are kept.  The CASAVA fields are
+# the part of the header that follows the read ID, i.e. the first space ('ID read:is_filtered:control:index').
+# Rows: no comment / passes / fails / ':Y:' only in places that are not the is_filtered field (in the ID, at the end of
+# the comment) / fails resp. passes with a further space-separated field after the CASAVA field (' rc' is what --revcomp
+# appends; -y/--suffix, --rename or the input can add others) / passes, with a ':Y:' only in such a later field
+NAME_ROWS = [("r", False), ("r 1:N:0:ACGT", False), ("r 1:Y:0:ACGT", True), ("r:Y: 2:N:18:ACGT", False), ("r 2:N:0:A:Y:", False),
+             ("r 1:Y:0:ACGT rc", True), ("r 1:N:0:ACGT rc", False), ("r 1:N:0:ACGT 2:Y:0:x", False)]
 
 # Expected errors of a non-empty read (row chosen by a symbolic int); with lengths 1..3 these give error rates
 # below, at and above 0.5 and expected errors below, at and above 1.0
@@ -555,7 +561,7 @@ def tables_for(spec):
     looks at gets a single row; paired-end sets use a selection (the number of paths is the product over both mates):
       text    no --max-n: one text per length 0..3; --max-n single-end: all ten (length, N count) rows;
               --max-n paired: (0,0) (1,0) (2,1) (2,2) (3,0) (3,2)
-      header  --discard-casava single-end: all five; paired: no comment / passes / fails
+      header  --discard-casava single-end: all eight; paired: no comment / passes / fails / fails + ' rc' / passes + later ':Y:' field
       expected errors  --max-ee/--max-aer single-end: 0, 1, 1.5, 2.5; paired: 1, 1.5, 2.5"""
     key = id(spec)
     if key not in _TABLES:
@@ -568,7 +574,7 @@ def tables_for(spec):
         if not spec.casava:
             c = [0]
         elif spec.paired:
-            c = [0, 1, 2]
+            c = [0, 1, 2, 5, 7]
         else:
             c = list(range(len(NAME_ROWS)))
         if spec.max_ee is None and spec.max_aer is None:
